@@ -7,6 +7,7 @@
 From Coq Require Import ZArith NArith List Bool Arith.
 From Verif Require Import RegAlloc.RaIRModel RegAlloc.RaIRProofs RegAlloc.RaIRProgress RegAlloc.RaIRExamples.
 From Verif Require Import RegAlloc.RwRuleModel RegAlloc.RwRuleProofs.
+From VerifGen Require Import C05IdiomTags.
 Import ListNotations.
 Local Open Scope Z_scope.
 
@@ -198,3 +199,10 @@ Print Assumptions C05_register_list_members.
 Theorem C05_rejects_non_consecutive_list : consec_ok [LReg 1 1; LReg 1 3] = false /\ consec_ok [LReg 1 30; LReg 1 31; LReg 1 0] = true.
 Proof. exact (conj ex_list_gap ex_list_wrap). Qed.
 Print Assumptions C05_rejects_non_consecutive_list.
+
+(* the instruction-id -> idiom-class table is generated from the tree under test (ids via InstAPI, mnemonics and operand
+   access cross-checked with db/isa_x86.json) and re-checked on every run: no instruction id is listed twice, so the class
+   found by alu_of_id is the one generated for that mnemonic *)
+Theorem C05_idiom_tag_table_is_a_function : ids_distinct idiom_tags = true.
+Proof. exact idiom_tags_distinct. Qed.
+Print Assumptions C05_idiom_tag_table_is_a_function.
